@@ -38,11 +38,12 @@ open Nq.Gen.C20Bounds
 theorem C20_sources_recognised : unrecognised = [] := by decide
 
 /-- the overflow checks of gen_allocdefs.h, stralloc_catb.c, stralloc_opyb.c, quote.c and the bounds
-checks of dns.c, spawn.c, qmail-pop3d.c, qmail-send.c, qmail-remote.c are present in the source -/
+checks of dns.c, spawn.c, qmail-pop3d.c, qmail-send.c, qmail-remote.c are present in the source, and the counters of
+quote.c doit()/quote_need() are unsigned (commit 26e354b) -/
 theorem C20_checks_present :
     allocChecked = true ∧ catbChecked = true ∧ quoteChecked = true ∧ dnsRdataChecked = true ∧
     dnsHeaderChecked = true ∧ spawnDelnumChecked = true ∧ pop3MsgnoChecked = true ∧
-    reportmaxCut = true ∧ smtptextCapped = true ∧ strallocBase = 30 ∧ dnsIpLen = 4 ∧ dnsMxLen = 3 := by decide
+    reportmaxCut = true ∧ smtptextCapped = true ∧ quoteSignedCounters = false ∧ strallocBase = 30 ∧ dnsIpLen = 4 ∧ dnsMxLen = 3 := by decide
 
 /-! ## (a) gen_alloc / stralloc / quote -/
 
@@ -165,32 +166,53 @@ theorem C20_stralloc_ops_sound (grant : Nat → Bool) (x : GA) (op : Op) (hx : W
     obtain ⟨h1, h2, h3⟩ := hx
     refine ⟨⟨by simp only; omega, h2, fun hn => ⟨hop, (h3 hn).2⟩⟩, by unfold storesIn; simp⟩
 
-/-- **quote.c doit()** for an input of `inLen` bytes of which `esc` need a backslash: every byte
-written is inside the `2·inLen + 2` bytes made ready, `len` is exact; and the `int` counter `j`
-overflows **iff** `inLen + esc + 2 > INT_MAX`.  [PARTIAL as a safety statement: for inputs of 2³⁰
-bytes and more the C code increments a signed `int` past INT_MAX — see `C20_quote_int_overflow`.] -/
-theorem C20_quote_doit_partial (grant : Nat → Bool) (out : GA) (inLen esc : Nat) (hx : WF 1 out)
-    (he : esc ≤ inLen) (h : (quoteDoit grant out inLen esc).ret = true) :
-    WF 1 (quoteDoit grant out inLen esc).x ∧ storesIn (quoteDoit grant out inLen esc) ∧
-    (quoteDoit grant out inLen esc).x.len = inLen + esc + 2 ∧
-    ((quoteDoit grant out inLen esc).ub = true ↔ inLen + esc + 2 > INT_MAX) :=
-  quoteDoit_ok grant out inLen esc hx he h
-
-/-- below 2³⁰ input bytes the counter cannot overflow: `doit` is fully defined -/
-theorem C20_quote_doit_defined (grant : Nat → Bool) (out : GA) (inLen esc : Nat) (hx : WF 1 out)
-    (he : esc ≤ inLen) (hl : inLen < 1073741823) (h : (quoteDoit grant out inLen esc).ret = true) :
-    (quoteDoit grant out inLen esc).ub = false := by
-  have := (quoteDoit_ok grant out inLen esc hx he h).2.2.2
-  cases hu : (quoteDoit grant out inLen esc).ub
+/-- **quote.c doit()** (the code as it is now — `quoteSignedCounters` is what the translator saw in quote.c:
+unsigned counters since 26e354b) for an input of `inLen` bytes of which `esc` need a backslash, for ALL
+lengths that pass the two overflow checks: every byte written is inside the `2·inLen + 2` bytes made ready,
+`len` is exactly `inLen + esc + 2`, and no counter overflows. -/
+theorem C20_quote_doit_sound (grant : Nat → Bool) (out : GA) (inLen esc : Nat) (hx : WF 1 out)
+    (he : esc ≤ inLen) (h : (quoteDoit quoteSignedCounters grant out inLen esc).ret = true) :
+    WF 1 (quoteDoit quoteSignedCounters grant out inLen esc).x ∧
+    storesIn (quoteDoit quoteSignedCounters grant out inLen esc) ∧
+    (quoteDoit quoteSignedCounters grant out inLen esc).x.len = inLen + esc + 2 ∧
+    (quoteDoit quoteSignedCounters grant out inLen esc).ub = false := by
+  have hs : quoteSignedCounters = false := by decide
+  rw [hs] at h ⊢
+  obtain ⟨a, b, c, d⟩ := quoteDoit_ok false grant out inLen esc hx he h
+  refine ⟨a, b, c, ?_⟩
+  cases hu : (quoteDoit false grant out inLen esc).ub
   · rfl
-  · have := this.1 hu; unfold INT_MAX at this; omega
+  · have := (d.1 hu).1; cases this
 
-/-- the complement (what the code does there): an address of 2³⁰ bytes that all need escaping passes
-both overflow checks, is granted 2³¹+2 bytes, and drives `int j` beyond INT_MAX (undefined behaviour;
-with wrap-around semantics a negative index).  Reachable only with a > 1 GiB address in memory. -/
-theorem C20_quote_int_overflow :
-    (quoteDoit (fun _ => true) {} 1073741824 1073741824).ret = true ∧
-    (quoteDoit (fun _ => true) {} 1073741824 1073741824).ub = true := by decide
+/-- the complement: a length for which `2·len + 2` does not fit 32 bits (len ≥ 2³¹ − 1) is refused
+before the output record or any byte is touched. -/
+theorem C20_quote_doit_overflow_refused (grant : Nat → Bool) (out : GA) (inLen esc : Nat)
+    (h : inLen * 2 + 2 ≥ U32) :
+    quoteDoit quoteSignedCounters grant out inLen esc = ⟨false, out, none, [], false⟩ :=
+  quoteDoit_refused _ grant out inLen esc h
+
+/-- **quote_need()**: every offset it reads is inside the `n` bytes it was given, and its (unsigned)
+counter does not overflow for any `n`. -/
+theorem C20_quote_need_reads (n : Nat) :
+    (∀ i ∈ quoteNeedReads n, i < n) ∧ quoteNeedUb quoteSignedCounters n = false := by
+  refine ⟨quoteNeedReads_in n, ?_⟩
+  have hs : quoteSignedCounters = false := by decide
+  rw [hs]; rfl
+
+/-- **pre-26e354b (mutant model, `signedCtr = true`)**: with `int i, j` an address of 2³⁰ bytes that all
+need escaping passes both overflow checks, is granted 2³¹+2 bytes, and drives `int j` beyond INT_MAX
+(undefined behaviour; reproduced under UBSan on the tree before 26e354b); in general the signed counter
+overflows exactly when `inLen + esc + 2 > INT_MAX`. -/
+theorem C20_quote_int_overflow_pre_26e354b :
+    ((quoteDoit true (fun _ => true) {} 1073741824 1073741824).ret = true ∧
+     (quoteDoit true (fun _ => true) {} 1073741824 1073741824).ub = true) ∧
+    (∀ (grant : Nat → Bool) (out : GA) (inLen esc : Nat), WF 1 out → esc ≤ inLen →
+      (quoteDoit true grant out inLen esc).ret = true →
+      ((quoteDoit true grant out inLen esc).ub = true ↔ inLen + esc + 2 > INT_MAX)) := by
+  refine ⟨by decide, ?_⟩
+  intro grant out inLen esc hx he h
+  have := (quoteDoit_ok true grant out inLen esc hx he h).2.2.2
+  simpa using this
 
 end alloc
 
